@@ -1,5 +1,6 @@
 import HbsModel.Registry
 import HbsModel.Lemmas.Write
+import HbsModel.Props.C08
 /-
   C02  Data is escaped exactly once in {{ }} and never in {{{ }}} / {{& }}.
   (a) theorems over the *regenerated* table of `escape_html`, for every string;
@@ -241,17 +242,16 @@ theorem html_never_escapes (reg : Registry) (root : Json) (fuel : Nat) (ht : Hel
     (hmc : rc.modifiedCtx = none)
     (hev : ∀ rc', rc'.blocks = rc.blocks → evaluate2 root p rc' out = .ok v rc' out) (hv : v.isMissing = false) :
     renderElem reg root (fuel + 4) (.html ht) rc out
-      = RM.bnd (indentAwareWrite v.asJson.render) (fun _ => modify (fun rc => { rc with disableEscape := false }))
-          { rc with disableEscape := true } out := by
+      = RM.escOffReset (indentAwareWrite v.asJson.render) rc out := by
   simp [renderElem, renderExpression, hno, hname, expandAsName, expandParam, RM.bnd_apply, hl, hr, hmc,
-    hev, PJ.isMissing, hv, PJ.json, doEscape]
+    hev, PJ.isMissing, hv, PJ.json, doEscape, RM.escOffReset, RM.bracket_apply]
 
 /-- after any successful `{{{ }}}` element the escape toggle is off again, whatever it wrote -/
 theorem html_resets_toggle (reg : Registry) (root : Json) (fuel : Nat) (ht : HelperT)
     (rc rc' : RC) (out out' : Out)
     (h : renderElem reg root (fuel + 1) (.html ht) rc out = .ok () rc' out') :
     rc'.disableEscape = false := by
-  simp only [renderElem, RM.bind_def, RM.bnd_apply, RM.modify_apply] at h
+  simp only [renderElem, RM.escOffReset, RM.bracket_apply] at h
   split at h <;> simp_all
   obtain ⟨h1, _⟩ := h
   rw [← h1]
@@ -286,6 +286,27 @@ theorem subexpr_call_disables_and_restores (reg : Registry) (root : Json) (fuel 
     (hcall : callHelper reg root fuel d h { rc with disableEscape := true } {} = .ok () rc1 o1) :
     callHelperForValue reg root (fuel + 1) d h rc out
       = .ok ⟨none, .derived (.str o1.text)⟩ { rc1 with disableEscape := rc.disableEscape } out := by
-  simp [callHelperForValue, hin, RM.bnd_apply, RM.captured, hcall]
+  simp [callHelperForValue, hin, RM.bnd_apply, RM.captured, hcall, RM.escOffSaved, RM.bracket_apply]
+
+end Hbs.C02
+
+/-! ### the escape toggle, for the whole renderer (instance of the frame theorem of C08) -/
+namespace Hbs.C02
+open Hbs RM
+
+/-- **escaping that is on stays on**: whatever template element has rendered – `{{{ }}}` and `{{& }}`
+    included, at any depth, inside any helper body or partial – if escaping was on before it, it is on
+    after it.  So every `{{path}}` that is a sibling or a later relative of a triple-brace expression is
+    escaped (exactly once, by `expr_path_escapes_once`). -/
+theorem escaping_stays_on (reg : Registry) (root : Json) (fuel : Nat) (e : Elem) (rc rc' : RC) (out out' : Out)
+    (h : renderElem reg root fuel e rc out = .ok () rc' out') (hon : rc.disableEscape = false) :
+    rc'.disableEscape = false :=
+  (C08.finished_construct_restores_frame reg root fuel e rc rc' out out' h).2.2.2.2 hon
+
+/-- a whole render starts with escaping on (`RenderContext::new`) and ends with it on -/
+theorem render_ends_with_escaping_on (reg : Registry) (root : Json) (fuel : Nat) (t : Tmpl) (rc' : RC) (out out' : Out)
+    (name : Option Str) (h : renderTemplate reg root fuel t { rootTemplate := name } out = .ok () rc' out') :
+    rc'.disableEscape = false :=
+  (C08.template_restores_frame reg root fuel t _ rc' out out' h).esc rfl
 
 end Hbs.C02
